@@ -1,26 +1,53 @@
 package internal
 
 import (
+	"fmt"
 	"io"
 	"os"
+	"path/filepath"
 )
 
-func Copy(source, dest string) error {
+// createTemp creates a new, not yet existing file next to dest, with the
+// same permissions os.Create would have given dest.
+func createTemp(dest string) (*os.File, error) {
+	dir, base := filepath.Split(dest)
+	for i := 0; ; i++ {
+		name := fmt.Sprintf("%s.%s.%d-%d.tmp", dir, base, os.Getpid(), i)
+		out, err := os.OpenFile(name, os.O_WRONLY|os.O_CREATE|os.O_EXCL, 0666)
+		if os.IsExist(err) && i < 10000 {
+			continue
+		}
+		return out, err
+	}
+}
+
+// Copy the file source to dest. The data is written to a temporary file in
+// the directory of dest, which is renamed to dest once it is complete, so
+// dest is never seen half-written. If anything fails, the temporary file is
+// removed and dest is left as it was.
+func Copy(source, dest string) (err error) {
 	in, err := os.Open(source)
 	if err != nil {
 		return err
 	}
 	defer in.Close()
 
-	out, err := os.Create(dest)
+	out, err := createTemp(dest)
 	if err != nil {
 		return err
 	}
-	defer out.Close()
+	defer func() {
+		if err != nil {
+			os.Remove(out.Name())
+		}
+	}()
+
 	_, err = io.Copy(out, in)
-	cerr := out.Close()
+	if cerr := out.Close(); err == nil {
+		err = cerr
+	}
 	if err != nil {
 		return err
 	}
-	return cerr
+	return os.Rename(out.Name(), dest)
 }
